@@ -308,8 +308,47 @@ def gen_parser(out):
     out.append(f"def streamClamp (objlen fend pos : Int) : Int := {tr.expr(e, 'int')}\n")
 
 
+def gen_ascii85(out):
+    """ascii85.py: the three regex sources (the hand model implements exactly these patterns; a changed pattern
+    breaks `a85_ahx_translated`), the EOD byte / pad digit / odd test of asciihexdecode, and the fact that
+    base64.a85decode is called with its defaults."""
+    mod = P.parse_file("pdfminer/ascii85.py")
+    out.append("\n-- ascii85.py\n")
+    for py, lean in (("start_re", "A85_START_RE"), ("end_re", "A85_END_RE"), ("bws_re", "AHX_WS_RE")):
+        e = P.find_assign(mod, py)
+        if not (isinstance(e, ast.Call) and isinstance(e.func, ast.Attribute) and e.func.attr == "compile"
+                and len(e.args) == 1 and not e.keywords and isinstance(e.args[0], ast.Constant)
+                and isinstance(e.args[0].value, bytes)):
+            raise P.Untranslatable(f"{py} is not re.compile(rb\"...\") without flags")
+        out.append(f"def {lean} : Bytes := " + P.lean_bytes(e.args[0].value) + "\n")
+    fn = P.find_function(mod, "ascii85decode")
+    subs = [s.value.func.value.id for s in fn.body if isinstance(s, ast.Assign) and isinstance(s.value, ast.Call)
+            and isinstance(s.value.func, ast.Attribute) and s.value.func.attr == "sub"
+            and isinstance(s.value.func.value, ast.Name)]
+    ret = [s for s in fn.body if isinstance(s, ast.Return)]
+    if subs != ["start_re", "end_re"] or len(ret) != 1:
+        raise P.Untranslatable("ascii85decode: start_re.sub, end_re.sub, return a85decode(data) expected")
+    r = ret[0].value
+    if not (isinstance(r, ast.Call) and isinstance(r.func, ast.Name) and r.func.id == "a85decode"
+            and len(r.args) == 1 and not r.keywords):
+        raise P.Untranslatable("ascii85decode: a85decode(data) with default options expected")
+    out.append("def A85DECODE_EXTRA_ARGS : Nat := 0\n")
+    fn = P.find_function(mod, "asciihexdecode")
+    finds = [n for n in ast.walk(fn) if isinstance(n, ast.Call) and isinstance(n.func, ast.Attribute)
+             and n.func.attr == "find" and len(n.args) == 1 and isinstance(n.args[0], ast.Constant)]
+    pads = [n for n in ast.walk(fn) if isinstance(n, ast.AugAssign) and isinstance(n.op, ast.Add)
+            and isinstance(n.value, ast.Constant) and isinstance(n.value.value, bytes)]
+    odd = [n for n in ast.walk(fn) if isinstance(n, ast.If) and isinstance(n.test, ast.Compare)
+           and isinstance(n.test.left, ast.BinOp)]
+    if len(finds) != 1 or len(pads) != 1 or len(odd) != 1:
+        raise P.Untranslatable("asciihexdecode changed shape")
+    out.append("def AHX_EOD : Bytes := " + P.lean_bytes(finds[0].args[0].value) + "\n")
+    out.append("def AHX_PAD : Bytes := " + P.lean_bytes(pads[0].value.value) + "\n")
+    out.append(nat_def("ahxNeedsPad", odd[0].test, ["idx"], cond=True))
+
+
 def generate(lean_dir: str):
-    out = [P.HEADER.format(src="pdfminer/utils.py, pdfminer/pdftypes.py, pdfminer/lzw.py, pdfminer/runlength.py, pdfminer/pdfparser.py", ns="Filters")]
+    out = [P.HEADER.format(src="pdfminer/utils.py, pdfminer/pdftypes.py, pdfminer/lzw.py, pdfminer/runlength.py, pdfminer/pdfparser.py, pdfminer/ascii85.py", ns="Filters")]
     mod = P.parse_file("pdfminer/utils.py")
     fn = P.find_function(mod, "paeth_predictor")
     tr = P.FuncTranslator({}, default_kind="int")
@@ -340,6 +379,7 @@ def generate(lean_dir: str):
     gen_rl(out)
     gen_pred(out, mod)
     gen_parser(out)
+    gen_ascii85(out)
     out.append("\nend PdfVerif.Gen.Filters\n")
     path = os.path.join(lean_dir, "PdfVerif", "Gen", "Filters.lean")
     P.write_if_changed(path, "".join(out))
